@@ -192,7 +192,20 @@ def lib_cqs(d):
 
 
 def make_base(rng, idx):
-    kind = idx % 8
+    kind = idx % 9
+    if kind == 8:
+        # statements broken over several lines: a comment or blank line may be inserted BETWEEN the lines of one statement
+        def ts(tag):
+            return ("export function build_%s(items: string[], mode: string): string {\n  let acc = \"\";\n  for (const i of items) {\n    acc +=\n      \"x\" + i;\n  }\n"
+                    "  if (mode ===\n      \"fast\") {\n    return acc;\n  }\n  if (mode ===\n      \"slow\") {\n    return acc;\n  }\n  setMode_%d(\n    engine,\n    \"fast\"\n  );\n  setMode_%d(\n    engine,\n    \"slow\"\n  );\n"
+                    "  return compute(\n    4711,\n    acc\n  );\n}\n") % (tag, idx, idx)
+
+        def py(tag):
+            return ("def build_%s(items, mode, engine):\n    acc = \"\"\n    for i in items:\n        acc += (\n            \"x\" + str(i)\n        )\n"
+                    "    if (mode ==\n            \"fast\"):\n        return acc\n    if (mode ==\n            \"slow\"):\n        return acc\n    set_mode_%d(\n        engine,\n        \"fast\"\n    )\n    set_mode_%d(\n        engine,\n        \"slow\"\n    )\n"
+                    "    return compute(\n        4711,\n        acc\n    )\n") % (tag, idx, idx)
+        return {"idx": idx, "kind": kind, "files": {"pkg/ml%d_a.ts" % idx: ts("a"), "pkg/ml%d_b.ts" % idx: ts("b"), "pkg/ml%d_a.py" % idx: py("a"), "pkg/ml%d_b.py" % idx: py("b")},
+                "cfg": {}, "cmds": ["perf", "stringly-typed", "magic-numbers"]}
     if kind == 7:
         # suppression comments of other tools (the subject of lazy-ignores), python and typescript, below a file header
         from ..gen import staircase
@@ -270,6 +283,9 @@ def make_case(rng, idx):
         seq = [e for e in seq if e not in ("rename", "reindent")] or ["insert"]  # trigger files contain names that rules inspect; hand-written layout
     if base["kind"] in (4, 6):
         seq = [e for e in seq if e != "rename"] or ["insert"]
+    if base["kind"] == 8:
+        seq = [e for e in seq if e in ("insert", "trailing-ws", "crlf")]
+        seq = ["insert", "insert"] + seq  # (two rounds of insertions: few lines, every boundary matters)
     if base["kind"] == 7:
         seq = [e for e in seq if e not in ("rename", "reindent", "bom")] or ["insert"]  # (hand-written layout; a BOM would precede the header the linter reads)
         if "insert" not in seq:
